@@ -21,7 +21,7 @@ C0, C1 = 60000, 3000  # budget in line events; measured maxima are written into 
 SIGMA_DOC = [
     "\n", "    ", " ", ":param a:", ":type a:", ":return:", ":rtype:", "Args:", "Returns:", "Raises:", "Parameters\n----------\n",
     "Returns\n-------\n", "a (int): ", "a : int", "*args", "**kwargs", "a", "int", "`", "```", ":", ".", ",", "Defaults to 5", "the value",
-    " or ", " of ", "Example:",
+    " or ", " of ", "Example:", ":param *args:", ":param **kwargs:",
 ]
 
 WS = [
